@@ -80,6 +80,11 @@ func MatchKnown(c *Case, v *work.Violation) string {
 var matchers = map[string]func(c *Case, v *work.Violation) bool{
 	// F2: the only way to get this class is a MoveBucket whose destination
 	// path has the moved bucket's path as a proper prefix.
+	// F6: the injected fault is "the final fdatasync of a commit (after its
+	// meta write) fails" while a read transaction older than that commit is open.
+	"F6": func(c *Case, v *work.Violation) bool {
+		return v.Prop == "C08" && strings.HasPrefix(v.Class, "final-sync-failed-with-reader-open")
+	},
 	"F2": func(c *Case, v *work.Violation) bool { return v.Prop == "C04" && v.Class == "move-into-descendant" },
 }
 
